@@ -87,6 +87,30 @@ fn is_plain_struct_field(f: &FieldDef) -> bool {
 
 pub const N_CLASSES: usize = 22;
 
+/// Fault classes whose expected diagnostics are context-dependent; pairs that would change each other's
+/// context are not generated (the property quantifies over pairs of *simultaneous misuses*, not over one
+/// misuse that repairs or masks another).
+fn compatible(a: &str, b: &str) -> bool {
+    let cp_group = |c: &str| c.contains("child_parents") || c.contains("child-parents") || c == "child-without-child-parents";
+    let member_level = |c: &str| {
+        matches!(
+            c,
+            "unknown-dedicated-field" | "unknown-dedicated-variant" | "misnamed-on-member" | "struct-instr-on-member" | "unknown-instr-member" | "unsupported-on-field" | "parent-on-variant" | "ghost-without-default" | "child-without-child-parents" | "tuple-member-without-name" | "tuple-variant-member-without-name" | "untyped-nested-parent" | "unnamed-parent-child" | "permeate-on-struct-field" | "unknown-member-repeat-category" | "member-repeat-unterminated"
+        ) || c.starts_with("duplicate-member-")
+    };
+    let exclusive = |c: &str| matches!(c, "tuple-member-without-name" | "tuple-variant-member-without-name" | "permeate-on-struct-field" | "member-repeat-unterminated");
+    if cp_group(a) && cp_group(b) {
+        return false;
+    }
+    if (exclusive(a) && member_level(b)) || (exclusive(b) && member_level(a)) {
+        return false;
+    }
+    if a == "no-trait-instr" || b == "no-trait-instr" {
+        return false;
+    }
+    true
+}
+
 /// Inject fault class `class` into `item`; None when the class has no admissible position in this item.
 pub fn inject(t: &mut Tape, item: &mut Item, class: usize) -> Option<Expected> {
     let cps = analyze(item);
@@ -106,6 +130,9 @@ pub fn inject(t: &mut Tape, item: &mut Item, class: usize) -> Option<Expected> {
         1 => {
             // 2: duplicate trait instruction for the same (kind, fallibility, type)
             let trs: Vec<TraitInstr> = item.trait_instrs().into_iter().cloned().collect();
+            if trs.is_empty() {
+                return None;
+            }
             let tr = t.pick(&trs).clone();
             let k = *t.pick(&tr.kinds());
             let name = if t.coin() { tr.name.clone() } else { basic_name(k, tr.fallible()).to_string() };
@@ -460,6 +487,9 @@ pub fn inject(t: &mut Tape, item: &mut Item, class: usize) -> Option<Expected> {
         19 => {
             // 12: conflicting trait-level repeat parameters (detected while parsing)
             let trs: Vec<TraitInstr> = item.trait_instrs().into_iter().cloned().collect();
+            if trs.is_empty() {
+                return None;
+            }
             let tr = t.pick(&trs).clone();
             let fall = tr.fallible();
             let mk = |ty: &str, params: Vec<TParam>| Instr::Trait(TraitInstr { name: tr.name.clone(), ty: ty.into(), hint: None, err: if fall { Some("E".into()) } else { None }, params });
@@ -638,15 +668,17 @@ impl Part for Faults {
         while expected.len() < nf && tries < 6 {
             tries += 1;
             let class = t.below(N_CLASSES);
-            if class == 0 && !expected.is_empty() {
+            if class == 0 && (!expected.is_empty() || nf > 1) {
                 continue;
             }
-            if expected.iter().any(|e: &Expected| e.class == "no-trait-instr") {
-                break;
-            }
+            let snapshot = item.clone();
             if let Some(e) = inject(&mut t, &mut item, class) {
-                labels.push(format!("fault:{}", e.class));
-                expected.push(e);
+                if expected.iter().all(|p: &Expected| compatible(&p.class, &e.class)) {
+                    labels.push(format!("fault:{}", e.class));
+                    expected.push(e);
+                } else {
+                    item = snapshot;
+                }
             }
         }
         labels.push(format!("faults:{}", expected.len()));
